@@ -251,6 +251,45 @@ def cornerJac (pts : List V3) (n : Nat × Nat × Nat × Nat) : Rat :=
   let p (i : Nat) := pts.getD i V3.zero
   triple (p n.2.1 - p n.1) (p n.2.2.1 - p n.1) (p n.2.2.2 - p n.1)
 
+/-! ### Round 6e: a frame (unit axis `u`, unit radial direction `e ⟂ u`, `u × e`) and the invariance of Jacobians -/
+
+/-- the point with height `h` along the axis and distance `ρ` from it in the half-plane spanned by `u` and `e` -/
+def halfPlanePt (o u e : V3) (h ρ : Rat) : V3 := o + V3.smul h u + V3.smul ρ e
+
+/-- the same point turned about the axis: height kept, the radial arm `ρ·e` becomes `ρ·(c·e + s·(u × e))` -/
+def turnedPt (o u e : V3) (c s h ρ : Rat) : V3 := o + V3.smul h u + V3.smul (c * ρ) e + V3.smul (s * ρ) (V3.cross u e)
+
+theorem rotateP_halfPlanePt (o u e : V3) (c s h ρ : Rat) (hu : V3.norm2 u = 1) (hue : V3.dot u e = 0) :
+    rotateP c s u 1 o (halfPlanePt o u e h ρ) = turnedPt o u e c s h ρ := by
+  simp only [V3.norm2, V3.dot] at hu hue
+  apply V3.ext' <;>
+    simp only [rotateP, halfPlanePt, turnedPt, V3.dot, V3.add_x, V3.add_y, V3.add_z, V3.sub_x, V3.sub_y, V3.sub_z, V3.smul_x,
+      V3.smul_y, V3.smul_z, V3.cross_x, V3.cross_y, V3.cross_z]
+  · linear_combination (h * (1 - c) * u.x) * hu + ((1 - c) * ρ * u.x) * hue
+  · linear_combination (h * (1 - c) * u.y) * hu + ((1 - c) * ρ * u.y) * hue
+  · linear_combination (h * (1 - c) * u.z) * hu + ((1 - c) * ρ * u.z) * hue
+
+/-- the linear part of `rotU`: `rotU c s u o p − rotU c s u o q = rotLin c s u (p − q)` -/
+def rotLin (c s : Rat) (u w : V3) : V3 := V3.smul c w + V3.smul s (V3.cross u w) + V3.smul ((1 - c) * V3.dot u w) u
+
+theorem rotU_sub (c s : Rat) (u o p q : V3) : rotU c s u o p - rotU c s u o q = rotLin c s u (p - q) := by
+  apply V3.ext' <;>
+    simp only [rotU, rotLin, V3.dot, V3.add_x, V3.add_y, V3.add_z, V3.sub_x, V3.sub_y, V3.sub_z, V3.smul_x, V3.smul_y, V3.smul_z,
+      V3.cross_x, V3.cross_y, V3.cross_z] <;> ring
+
+/-- **a rotation has determinant 1**: triple products are kept (`det = (c + (1−c)|u|²)(c² + s²|u|²)` exactly, which is 1 with the
+    two witnesses) -/
+theorem triple_rotLin (c s : Rat) (u a b d : V3) (hu : V3.norm2 u = 1) (hcs : c * c + s * s = 1) :
+    triple (rotLin c s u a) (rotLin c s u b) (rotLin c s u d) = triple a b d := by
+  simp only [V3.norm2, V3.dot] at hu
+  simp only [triple, rotLin, V3.dot, V3.add_x, V3.add_y, V3.add_z, V3.smul_x, V3.smul_y, V3.smul_z, V3.cross_x, V3.cross_y,
+    V3.cross_z]
+  linear_combination
+    (((a.y * b.z - a.z * b.y) * d.x + (a.z * b.x - a.x * b.z) * d.y + (a.x * b.y - a.y * b.x) * d.z) *
+      (1 + (1 - c) * (u.x * u.x + u.y * u.y + u.z * u.z - 1))) * hcs +
+    (((a.y * b.z - a.z * b.y) * d.x + (a.z * b.x - a.x * b.z) * d.y + (a.x * b.y - a.y * b.x) * d.z) *
+      (s * s + (1 - c) * (1 + s * s * (u.x * u.x + u.y * u.y + u.z * u.z - 1)))) * hu
+
 /-! ### small helpers of Props/C10.lean -/
 
 theorem length_insertSorted_not_mem (l : String) : ∀ ls : List String, l ∉ ls → (insertSorted l ls).length = ls.length + 1 := by
